@@ -162,7 +162,7 @@ theorem stored_fields_equiv (c : ClassOpts) (defaults kw : List (String × PyVal
         rcases bindE_eq_ok hv with ⟨w, hw, h2⟩
         rcases bindE_eq_ok h2 with ⟨ar, har, hc⟩
         cases hc
-        have := validate_raw_id O f v' w hs.1 hw
+        have := validate_raw_id O f v' w (and_true_iff.mp hs.1).1 hw
         subst this
         have ih := stored_fields_equiv c defaults kw rest ar hs.2 har
         simp only [kwInFieldOrder] at ih
